@@ -1783,6 +1783,12 @@ type roundResult struct {
 	RevsPrivate int  `json:"revs_private,omitempty"`
 	ErrorNS     int  `json:"error_ns,omitempty"`
 	DuelSets    int  `json:"duel_sets"`
+	// DupTexts: texts with a single-valued substatement twice, one per (statement type, field)
+	// pair, that every goroutine of the round loaded first of all (dup.go; all pairs in the first
+	// round of a process, an eighth of them otherwise); AlreadySet: those of them whose sequential
+	// diagnostic is "<keyword>: already set"
+	DupTexts   int `json:"dup_texts"`
+	AlreadySet int `json:"already_set"`
 }
 
 func roundSeed(seed int64, round int) int64 { return seed*1000003 + int64(round)*7919 + 17 }
@@ -1901,12 +1907,16 @@ func doRound(seed int64, round, n, batch int) roundResult {
 	var stormBarrier sync.WaitGroup
 	stormBarrier.Add(nr)
 	gotDump := make([][]string, np)
+	// first of all, every goroutine: the "already set" storm (dup.go)
+	dups := newDupPlan(round, n)
+	gotDup := make([][]string, n)
 	var wg sync.WaitGroup
 	for k := 0; k < np; k++ {
 		wg.Add(1)
 		go func(k int) {
 			defer wg.Done()
 			<-start
+			gotDup[k] = dups.storm(dupWho(k))
 			if k == 0 {
 				func() {
 					defer close(sharedReady)
@@ -1937,6 +1947,8 @@ func doRound(seed int64, round, n, batch int) roundResult {
 		wg.Add(1)
 		go func(k int) {
 			defer wg.Done()
+			<-start
+			gotDup[np+k] = dups.storm(dupWho(np + k))
 			<-sharedReady
 			if builderPanic != "" {
 				stormBarrier.Done()
@@ -1991,6 +2003,12 @@ func doRound(seed int64, round, n, batch int) roundResult {
 	}
 
 	// ---- afterwards, sequentially: the reference answers
+	{
+		ev, already, probs := dups.check(gotDup)
+		res.Evals += ev
+		res.Problems = append(res.Problems, probs...)
+		res.DupTexts, res.AlreadySet = len(dups.idx), already
+	}
 	if builderPanic != "" {
 		// a crash while processing is C01's subject; without a shared set there is nothing to read
 		res.SeqAnomalies++
@@ -2228,6 +2246,7 @@ func child(seed int64, from, to, n, batch int) {
 			pre = rejectAll(seed, round)
 			between = 2 * len(rejectedKinds)
 		}
+		dupFull = round == from
 		rr := doRound(seed, round, n, batch)
 		rr.Problems = append(pre, rr.Problems...)
 		rr.Between = between
@@ -2401,7 +2420,7 @@ func raceParties(stderr string) string {
 		}
 		access := strings.ToLower(strings.TrimPrefix(strings.SplitN(l, " at ", 2)[0], "Previous "))
 		fn, loc, role := "", "", "pipeline"
-		inMain := false
+		inMain, dupStorm := false, false
 		for j := k + 1; j+1 < len(lines) && strings.HasPrefix(lines[j], "  "); j += 2 {
 			f := strings.TrimSpace(lines[j])
 			if strings.HasPrefix(f, "main.") {
@@ -2409,6 +2428,9 @@ func raceParties(stderr string) string {
 			}
 			if strings.HasPrefix(f, "main.run(") || strings.Contains(f, ".run.") {
 				role = "reader"
+			}
+			if strings.Contains(f, "dupPlan") {
+				dupStorm = true
 			}
 			if fn == "" && strings.Contains(f, "goyang/pkg/") {
 				fn = strings.TrimSuffix(f[strings.LastIndex(f, "/")+1:], "()")
@@ -2420,6 +2442,9 @@ func raceParties(stderr string) string {
 		}
 		if !inMain {
 			role = "goroutine that the library itself started"
+		}
+		if dupStorm {
+			role = "goroutine that loads, on a fresh Modules of its own, a text in which a single-valued substatement occurs twice (the same texts are loaded by all goroutines first of all, dup.go)"
 		}
 		parts = append(parts, fmt.Sprintf("%s in %s (%s) by a %s", access, fn, loc, role))
 	}
@@ -2501,6 +2526,7 @@ func main() {
 	var mu sync.Mutex
 	var nodes, ops, firstNS, mods, withErr, roundsDone, unexpected, anomalies, canaries, dirSets, stormNodes int64
 	var errStorm, orphanRounds, orphanFirst, leafrefFinds, rejTexts, rejBetween, widePrivate int64
+	var dupTexts, dupAlready, dupColdRounds int64
 	var twinShared, revsShared, twinPrivate, revsPrivate, errorNS, duels int64
 	wideHist := map[string]int64{}
 	ownErrHist := map[string]int64{}
@@ -2551,6 +2577,11 @@ func main() {
 					leafrefFinds += int64(rr.LeafrefFinds)
 					rejTexts += int64(rr.RejectedTexts)
 					rejBetween += int64(rr.Between)
+					dupTexts += int64(rr.DupTexts)
+					dupAlready += int64(rr.AlreadySet)
+					if rr.DupTexts == len(dupCases()) {
+						dupColdRounds++
+					}
 					widePrivate += int64(rr.WidePrivate)
 					if rr.Twin {
 						twinShared++
@@ -2659,6 +2690,10 @@ func main() {
 	res.Distribution["entries_on_which_all_readers_call_GetErrors_together_3_times_total"] = errStorm
 	res.Distribution["rejected_texts_loaded_by_the_goroutines_of_the_rounds_diagnostics_compared"] = rejTexts
 	res.Distribution["rejected_texts_loaded_sequentially_between_rounds"] = rejBetween
+	res.Distribution["texts_with_a_single_valued_substatement_twice_loaded_first_of_all_by_every_goroutine"] = dupTexts
+	res.Distribution["of_these_with_the_sequential_diagnostic_already_set"] = dupAlready
+	res.Distribution["statement_type_field_pairs_with_a_single_valued_substatement"] = int64(len(dupCases()))
+	res.Distribution["first_rounds_of_a_process_with_all_pairs_met_cold_by_all_goroutines_at_once"] = dupColdRounds
 	res.Distribution["shared_sets_with_a_wide_directory_with_errors_in_2_or_more_child_subtrees_by_number_of_children"] = wideHist
 	res.Distribution["private_sets_with_such_a_wide_directory"] = widePrivate
 	res.Distribution["shared_sets_with_two_or_three_different_modules_declaring_one_namespace"] = twinShared
